@@ -432,7 +432,11 @@ impl Exec {
             _ => {}
         }
         if g.rec_steps {
-            let ev = Self::step_event(tid, kind, &a6);
+            let mut ev = Self::step_event(tid, kind, &a6);
+            // position of this step in the schedule (1-based): specification -> code replay counts grants
+            if let Some(o) = ev.as_object_mut() {
+                o.insert("g".into(), json!(g.nsteps));
+            }
             g.trace.push(ev);
         }
     }
@@ -627,6 +631,20 @@ impl Strategy {
         }
     }
 
+    /// the thread an explicit list names next, if any
+    pub fn wanted(&self) -> Option<usize> {
+        match self {
+            Strategy::List { steps, pos, .. } if *pos < steps.len() => Some(steps[*pos] as usize),
+            _ => None,
+        }
+    }
+
+    pub fn advance(&mut self) {
+        if let Strategy::List { pos, .. } = self {
+            *pos += 1;
+        }
+    }
+
     pub fn drift(&self) -> u64 {
         match self {
             Strategy::List { drift, .. } => *drift,
@@ -715,9 +733,24 @@ impl Exec {
             if n >= budget {
                 return Outcome::Budget;
             }
+            // an explicit list may name a thread that is spinning without anybody having moved (specification -> code
+            // replay follows the specification's order exactly); recorded schedules never do
+            if let Some(want) = strat.wanted() {
+                if !runnable.contains(&want) && self.runnable_any(want) {
+                    strat.advance();
+                    self.grant(want);
+                    continue;
+                }
+            }
             let t = strat.pick(&runnable, n);
             self.grant(t);
         }
+    }
+
+    /// runnable, whether or not it is a spinner nobody has moved for
+    fn runnable_any(&self, t: usize) -> bool {
+        let g = self.m.lock().unwrap();
+        t < g.thr.len() && Self::runnable(&g, t)
     }
 
     /// Run all threads except `skip` under the strategy for at most `steps` steps.
